@@ -267,37 +267,45 @@ class Body:
 
     # ---- must-moved analysis (which Drop terminators of the un-elaborated MIR are no-ops) -----------
     def _moves_defs(self, blk):
-        """sequence of ('move'|'def', local) effects of a block, statements then terminator"""
+        """sequence of ('move', local, piece) | ('def', local) effects of a block, statements then terminator.
+        piece = '*' for a move of the whole local, else the type of the piece moved out of it (the type of the
+        destination of `_y = move _x.f1`), so that a partial move is not mistaken for a move of everything"""
         eff = []
+
+        def mv(o, dest_ty):
+            if o.get("k") == "move":
+                p = o["p"]
+                if len(p) == 1:
+                    eff.append(("move", p[0], "*"))
+                else:
+                    eff.append(("move", p[0], dest_ty or "?"))
         for st in blk["s"]:
             if st["k"] != "assign":
                 continue
             r = st["r"]
-            ops = []
             k = r["k"]
+            lhs_ty = self.locals[st["p"][0]]["ty"] if len(st["p"]) == 1 else None
             if k in ("use", "cast", "un", "repeat"):
-                ops = [r["o"]]
+                mv(r["o"], lhs_ty)
             elif k == "bin":
-                ops = [r["a"], r["b"]]
+                mv(r["a"], None)
+                mv(r["b"], None)
             elif k == "agg":
-                ops = r["ops"]
-            for o in ops:
-                if o.get("k") == "move":
-                    eff.append(("move", o["p"][0]))
+                for o in r["ops"]:
+                    mv(o, None)
             if len(st["p"]) == 1:
                 eff.append(("def", st["p"][0]))
         t = blk["t"]
         if t["k"] in ("call", "tailcall"):
-            for o in t["args"]:
-                if o.get("k") == "move":
-                    eff.append(("move", o["p"][0]))
+            for o, aty in zip(t["args"], t.get("argtys", [None] * len(t["args"]))):
+                mv(o, aty)
         elif t["k"] == "yield":
-            if t["v"].get("k") == "move":
-                eff.append(("move", t["v"]["p"][0]))
+            mv(t["v"], None)
         return eff
 
     def must_moved_at_term(self):
-        """bb -> set of locals that are definitely moved-out when the terminator of bb executes"""
+        """bb -> {local: set(pieces)} of what is definitely moved out when the terminator of bb executes;
+        piece '*' = the whole local"""
         if getattr(self, "_mm", None) is not None:
             return self._mm
         n = len(self.blocks)
@@ -306,50 +314,52 @@ class Body:
         entry[0] = frozenset()
         effs = [self._moves_defs(b) for b in self.blocks]
 
-        def transfer(s, bi, with_term_def=True):
+        def transfer(s, bi):
             s = set(s)
-            for kind, l in effs[bi]:
-                if kind == "move":
-                    s.add(l)
+            for e in effs[bi]:
+                if e[0] == "move":
+                    s.add((e[1], e[2]))
                 else:
-                    s.discard(l)
+                    s = {x for x in s if x[0] != e[1]}
             return s
         work = [0]
-        out_cache = {}
         while work:
             bi = work.pop()
             if entry[bi] is ALL:
                 continue
             out = transfer(entry[bi], bi)
             t = self.blocks[bi]["t"]
-            # the destination of a call is (re)defined on the normal edge
             for s in self.succs(bi, unwind=False):
                 if self.blocks[s]["c"]:
                     continue
                 o2 = set(out)
                 if t["k"] == "call" and len(t["dest"]) == 1 and s == t.get("target"):
-                    o2.discard(t["dest"][0])
+                    o2 = {x for x in o2 if x[0] != t["dest"][0]}
                 if t["k"] == "yield" and len(t["resume_arg"]) == 1 and s == t.get("resume"):
-                    o2.discard(t["resume_arg"][0])
+                    o2 = {x for x in o2 if x[0] != t["resume_arg"][0]}
                 new = frozenset(o2) if entry[s] is ALL else frozenset(entry[s] & o2)
                 if entry[s] is ALL or new != entry[s]:
                     entry[s] = new
                     work.append(s)
         res = {}
         for bi in range(n):
-            if entry[bi] is ALL:
-                res[bi] = set()
-                continue
-            s = set(entry[bi])
-            for kind, l in effs[bi]:
-                # effects of the terminator's own argument moves do not matter for a Drop terminator
-                if kind == "move":
-                    s.add(l)
-                else:
-                    s.discard(l)
-            res[bi] = s
+            d = {}
+            if entry[bi] is not ALL:
+                for (l, piece) in transfer(entry[bi], bi):
+                    d.setdefault(l, set()).add(piece)
+            res[bi] = d
         self._mm = res
         return res
+
+    def drop_is_noop_for(self, bi, local, holds):
+        """Is the Drop of `local` at block bi certainly not dropping a value for which holds(type) is true?
+        True if the whole local was moved out, or a piece whose type satisfies `holds` was moved out of it."""
+        pieces = self.must_moved_at_term().get(bi, {}).get(local)
+        if not pieces:
+            return False
+        if "*" in pieces:
+            return True
+        return any(holds(p) for p in pieces if p)
 
     # ---- helpers -------------------------------------------------------------------------------
     def call_at(self, o):
